@@ -17,13 +17,17 @@ class RegBench:
     def run_case(self, pol, reg, form, expect, label, scn=None, known=None):
         """expect: 'accept' | 'reject' | None; pol: impl.RegPolicy"""
         chk = self.chk
-        il = impl.verify_reg(pol, impl.reg_cred_value(form, reg))
+        val = impl.reg_cred_value(form, reg)
+        il = impl.verify_reg(pol, val)
         ml = None
         chk.evals += 1
+        again = impl.verify_reg(pol, val)          # the very same call once more (same argument objects)
         rp = {"entry": "verify_registration_response", "label": label, "form": form, "policy": pol.describe(),
               "credential": reg.as_dict(), "id_text": reg.id_text, "type": reg.typ, "impl": il[:400]}
         if scn is not None:
             rp["scenario"] = scn.describe()
+        if again != il:
+            chk.violation(f"the same call repeated gives another outcome ({label}): {il[:50]} then {again[:50]}", f"repeat-call reg {label.split('+')[0].split('/')[0]}", dict(rp, second_outcome=again[:400]))
         if self.R:
             ml = self.R.call("verifyreg " + pol.wire() + " " + impl.reg_cred_wire(form, reg))
             rp["model"] = ml[:400]
